@@ -135,4 +135,251 @@ theorem clearLoop_spec : ∀ (l : Forest) (s : Store) (fuel : Nat), Down s l →
           exact ⟨m, by rw [r4 k, if_neg hki, u3.2.2 k, if_neg hki]; exact hm, hd⟩
         · exact absurd hk hkts
 
+/-- `mpt_node_clear(x)` at record level -/
+theorem clear_spec {s : Store} {x : Nat} {xn : Node} {cs : Forest} {fuel : Nat}
+    (hx : s.Live x xn) (hc : xn.children = headId cs) (hD : Down s cs) (hnd : (ids cs).Nodup) (hxcs : x ∉ ids cs)
+    (hf : cost cs + 1 ≤ fuel) :
+    ∃ s', s.clear fuel x = .ok s' ∧ s'.freed = s.freed ++ post cs ∧ s'.nodes.length = s.nodes.length ∧
+      s'.nodes[x]? = some { xn with children := none } ∧
+      (∀ i, i ≠ x → i ∉ ids cs → s'.nodes[i]? = s.nodes[i]?) ∧
+      (∀ i ∈ ids cs, ∃ n, s'.nodes[i]? = some n ∧ n.alive = false) := by
+  obtain ⟨f, rfl⟩ : ∃ f, fuel = f + 1 := ⟨fuel - 1, by omega⟩
+  obtain ⟨s1, e1, r1⟩ := clearLoop_spec cs s f hD hnd (by omega)
+  have hl1 : s1.Live x xn := ⟨by rw [r1.other x hxcs]; exact hx.1, hx.2⟩
+  obtain ⟨s2, e2, u2⟩ := Store.modify_ok hl1 (fun n => { n with children := none })
+  refine ⟨s2, ?_, ?_, ?_, ?_, ?_, ?_⟩
+  · simp only [Store.clear, Store.get_ok hx, Res.bind_ok]
+    rw [hc, e1]
+    simp only [Res.bind_ok, e2]
+  · rw [u2.1, r1.freed]
+  · rw [u2.2.1, r1.length]
+  · rw [u2.2.2 x]; simp
+  · intro i h1 h2
+    rw [u2.2.2 i, if_neg h1, r1.other i h2]
+  · intro i hi
+    obtain ⟨n, hn, hd⟩ := r1.dead i hi
+    have : i ≠ x := by rintro rfl; exact hxcs hi
+    exact ⟨n, by rw [u2.2.2 i, if_neg this]; exact hn, hd⟩
+
+/-- `mpt_node_destroy(x)` of an unlinked node at record level -/
+theorem destroy_spec {s : Store} {x : Nat} {n : Name} {v : Val} {cs : Forest} {fuel : Nat}
+    (hR : Real s none none [.node x n v cs]) (hnd : (ids [.node x n v cs]).Nodup)
+    (hf : cost cs + 2 ≤ fuel) :
+    ∃ s', s.destroy fuel x = .ok (s', true) ∧ Released s s' [.node x n v cs] := by
+  rw [Real_cons] at hR
+  simp at hnd
+  obtain ⟨f, rfl⟩ : ∃ f, fuel = f + 1 := ⟨fuel - 1, by omega⟩
+  have hx : s.Live x (recOf none none none cs n v) := ⟨by simpa using hR.1, rfl⟩
+  obtain ⟨s1, e1, f1, l1, rx, ro, rd⟩ := clear_spec (fuel := f) hx rfl (Real.down hR.2.1) hnd.2 hnd.1 (by omega)
+  have hl1 : s1.Live x { recOf none none none cs n v with children := none } := ⟨rx, rfl⟩
+  obtain ⟨s2, e2, f2, l2, r2⟩ := Store.free_ok hl1
+  refine ⟨s2, ?_, ?_, ?_, ?_, ?_⟩
+  · simp only [Store.destroy, Store.get_ok hx, Res.bind_ok]
+    simp only [recOf, Option.isSome_none, Bool.false_eq_true, or_self, ↓reduceIte]
+    rw [e1]
+    simp only [Res.bind_ok, e2]
+    rfl
+  · rw [f2, f1]; simp [post]
+  · rw [l2, l1]
+  · intro i hi
+    simp at hi
+    rw [r2 i, if_neg hi.1, ro i hi.1 hi.2]
+  · intro i hi
+    simp at hi
+    rcases hi with rfl | hi
+    · exact ⟨{ recOf none none none cs n v with children := none, alive := false }, by rw [r2 i]; simp, rfl⟩
+    · obtain ⟨m, hm, hd⟩ := rd i hi
+      have : i ≠ x := by rintro rfl; exact hnd.1 hi
+      exact ⟨m, by rw [r2 i, if_neg this]; exact hm, hd⟩
+
+/-- `mpt_node_destroy` refuses a node that is still linked: nothing changes -/
+theorem destroy_refused {s : Store} {x : Nat} {xn : Node} {fuel : Nat} (hx : s.Live x xn)
+    (hl : xn.parent.isSome ∨ xn.next.isSome ∨ xn.prev.isSome) : s.destroy (fuel + 1) x = .ok (s, false) := by
+  simp only [Store.destroy, Store.get_ok hx, Res.bind_ok]
+  simp only [hl, ↓reduceIte]
+  rfl
+
+
+/-- generic bookkeeping for a step that releases the live nodes `D` (logged as `P`) and leaves the
+    live/dead flag of every other record alone -/
+theorem Realises.release {s s' : Store} {tops tops' : List Forest} {D P : List Nat} (h : Realises s tops)
+    (hP : P.Perm D) (hfreed : s'.freed = s.freed ++ P)
+    (hother : ∀ i, i ∉ D → (s'.nodes[i]?).map Node.alive = (s.nodes[i]?).map Node.alive)
+    (hdead : ∀ i ∈ D, ∃ n, s'.nodes[i]? = some n ∧ n.alive = false)
+    (hlive : ∀ i ∈ D, ∃ n, s.Live i n)
+    (hr : ∀ l ∈ tops', l ≠ [] ∧ Real s' none none l)
+    (hp : (tops'.flatMap ids ++ D).Perm (tops.flatMap ids)) :
+    Realises s' tops' := by
+  have hndall : (tops'.flatMap ids ++ D).Nodup := hp.nodup_iff.2 h.nodup
+  have hnd' := (List.nodup_append.1 hndall).1
+  have hndD := (List.nodup_append.1 hndall).2.1
+  have hdisj := (List.nodup_append.1 hndall).2.2
+  refine ⟨hr, hnd', ?_, ?_, ?_⟩
+  · intro i n hn ha
+    have hiD : i ∉ D := by
+      intro hi
+      obtain ⟨m, hm, hd⟩ := hdead i hi
+      rw [hn] at hm
+      have := Option.some.inj hm
+      subst this
+      rw [ha] at hd
+      exact absurd hd (by simp)
+    have := hother i hiD
+    rw [hn] at this
+    cases hs : s.nodes[i]? with
+    | none => simp [hs] at this
+    | some m =>
+      simp [hs] at this
+      have hm := h.cover i m hs (by rw [← this]; exact ha)
+      have := hp.mem_iff.2 hm
+      rw [List.mem_append] at this
+      rcases this with h1 | h1
+      · exact h1
+      · exact absurd h1 hiD
+  · rw [hfreed, List.nodup_append]
+    refine ⟨h.freedNodup, hP.nodup_iff.2 hndD, ?_⟩
+    intro a ha b hb hab
+    subst hab
+    obtain ⟨n, hn, hd⟩ := (h.freedIff a).1 ha
+    obtain ⟨m, hm1, hm2⟩ := hlive a (hP.mem_iff.1 hb)
+    rw [hn] at hm1
+    have := Option.some.inj hm1
+    subst this
+    rw [hm2] at hd
+    exact absurd hd (by simp)
+  · intro i
+    rw [hfreed, List.mem_append, h.freedIff i]
+    constructor
+    · rintro (⟨n, hn, hd⟩ | hi)
+      · have hiD : i ∉ D := by
+          intro hi
+          obtain ⟨m, hm1, hm2⟩ := hlive i hi
+          rw [hn] at hm1
+          have := Option.some.inj hm1
+          subst this
+          rw [hm2] at hd
+          exact absurd hd (by simp)
+        have := hother i hiD
+        rw [hn] at this
+        cases hs : s'.nodes[i]? with
+        | none => simp [hs] at this
+        | some m => simp [hs] at this; exact ⟨m, rfl, by rw [this]; exact hd⟩
+      · exact hdead i (hP.mem_iff.1 hi)
+    · rintro ⟨n, hn, hd⟩
+      by_cases hiD : i ∈ D
+      · exact Or.inr (hP.mem_iff.2 hiD)
+      · left
+        have := hother i hiD
+        rw [hn] at this
+        cases hs : s.nodes[i]? with
+        | none => simp [hs] at this
+        | some m => simp [hs] at this; exact ⟨m, rfl, by rw [← this]; exact hd⟩
+
+/-- `mpt_node_destroy(x)` of a detached root: everything of the tree is released exactly once, in post-order -/
+theorem destroy_refines {s : Store} {x : Nat} {n : Name} {v : Val} {cs : Forest} {rest : List Forest} {fuel : Nat}
+    (hR : Realises s ([.node x n v cs] :: rest)) (hf : cost cs + 2 ≤ fuel) :
+    ∃ s', s.destroy fuel x = .ok (s', true) ∧ Realises s' rest ∧ s'.freed = s.freed ++ post [.node x n v cs] := by
+  have hT := (hR.real [.node x n v cs] (by simp)).2
+  have hnd := hR.nodup
+  simp only [List.flatMap_cons] at hnd
+  have hndT := (List.nodup_append.1 hnd).1
+  have hdisj := (List.nodup_append.1 hnd).2.2
+  obtain ⟨s', hs', rel⟩ := destroy_spec hT hndT hf
+  refine ⟨s', hs', ?_, rel.freed⟩
+  refine hR.release (D := ids [.node x n v cs]) (post_perm _) rel.freed ?_ rel.dead (Real.live hT) ?_ ?_
+  · intro i hi
+    rw [rel.other i hi]
+  · intro l hl
+    have hr := hR.real l (by simp [hl])
+    refine ⟨hr.1, Real.frame hr.2 (fun i hi => rel.other i ?_)⟩
+    intro h
+    exact hdisj i h i (List.mem_flatMap.2 ⟨l, hl, hi⟩) rfl
+  · simp only [List.flatMap_cons]
+    exact List.perm_append_comm
+
+/-- `mpt_node_clear(x)`: everything below `x` is released exactly once, `x` keeps its place -/
+theorem clear_refines {s : Store} {x : Nat} {l0 : Forest} {tx : Tree} {rest : List Forest} {fuel : Nat}
+    (hR : Realises s (l0 :: rest)) (hfx : find? x l0 = some tx) (hf : cost tx.children + 1 ≤ fuel) :
+    ∃ s', s.clear fuel x = .ok s' ∧ Realises s' (modKids x (fun _ => []) l0 :: rest) ∧
+      s'.freed = s.freed ++ post tx.children := by
+  have hl0 := hR.real l0 (by simp)
+  have hnd := hR.nodup
+  simp only [List.flatMap_cons] at hnd
+  have hnd0 := (List.nodup_append.1 hnd).1
+  have hdisj := (List.nodup_append.1 hnd).2.2
+  obtain ⟨⟨nx, pv, pr, hxrec⟩, hkids⟩ := Real.of_find hl0.2 hfx
+  have hxcs := find?_not_in_children hnd0 hfx
+  have hcsnd := find?_children_nodup hnd0 hfx
+  have hsub := find?_children_subset hfx
+  obtain ⟨s', hs', hfreed, hlen, rx, ro, rd⟩ :=
+    clear_spec (fuel := fuel) (s := s) (x := x) ⟨hxrec, rfl⟩ rfl (Real.down hkids) hcsnd hxcs hf
+  refine ⟨s', hs', ?_, hfreed⟩
+  obtain ⟨A, B, hsplit, hsplit'⟩ := ids_modKids_split hnd0 hfx
+  refine hR.release (D := ids tx.children) (post_perm _) hfreed ?_ rd (Real.live hkids) ?_ ?_
+  · intro i hi
+    by_cases hix : i = x
+    · subst hix; rw [rx, hxrec]; rfl
+    · rw [ro i hix hi]
+  · intro l hl
+    simp only [List.mem_cons] at hl
+    rcases hl with rfl | hl
+    · refine ⟨?_, ?_⟩
+      · intro h
+        have := headId_modKids (q := x) (g := fun _ => []) l0
+        rw [h] at this
+        cases l0 with
+        | nil => exact hl0.1 rfl
+        | cons t ts => cases t; simp at this
+      · refine real_modKids hl0.2 hnd0 hfx (by simp) ?_ (fun i _ h1 h2 => ro i h1 h2)
+        rw [rx, hxrec]; rfl
+    · have hr := hR.real l (by simp [hl])
+      refine ⟨hr.1, Real.frame hr.2 (fun i hi => ?_)⟩
+      have hirest : i ∈ rest.flatMap ids := List.mem_flatMap.2 ⟨l, hl, hi⟩
+      refine ro i ?_ ?_
+      · rintro rfl; exact hdisj i (find?_mem hfx).1 i hirest rfl
+      · intro h; exact hdisj i (hsub i h) i hirest rfl
+  · simp only [List.flatMap_cons]
+    rw [hsplit, hsplit' (fun _ => [])]
+    simp only [ids_nil, List.append_nil]
+    have : (A ++ B ++ rest.flatMap ids ++ ids tx.children).Perm (A ++ ids tx.children ++ B ++ rest.flatMap ids) := by
+      have h1 := @List.perm_append_comm _ (B ++ rest.flatMap ids) (ids tx.children)
+      have h2 := List.Perm.append_left A h1
+      simpa [List.append_assoc] using h2
+    exact this
+
+
+/-- pigeonhole: a duplicate-free list of numbers below `n` has at most `n` elements -/
+theorem nodup_bound : ∀ (n : Nat) (l : List Nat), l.Nodup → (∀ i ∈ l, i < n) → l.length ≤ n
+  | 0, l, _, hb => by
+    cases l with
+    | nil => simp
+    | cons a as => exact absurd (hb a (by simp)) (by omega)
+  | n + 1, l, hnd, hb => by
+    have h1 : (l.erase n).Nodup := hnd.erase n
+    have h2 : ∀ i ∈ l.erase n, i < n := by
+      intro i hi
+      have hm := (List.Nodup.mem_erase_iff hnd).1 hi
+      have := hb i hm.2
+      omega
+    have ih := nodup_bound n (l.erase n) h1 h2
+    have := List.length_erase (a := n) (l := l)
+    split at this <;> omega
+
+/-- the fuel the drivers pass (`Store.fuel`) is enough to release any realised forest -/
+theorem Realises.cost_le {s : Store} {tops : List Forest} (h : Realises s tops) {l : Forest} (hl : l ∈ tops) :
+    cost l ≤ 3 * s.nodes.length := by
+  rw [cost_eq]
+  have hnd : (ids l).Nodup := by
+    have hsub : (ids l).Sublist (tops.flatMap ids) := by
+      obtain ⟨a, b, rfl⟩ := List.append_of_mem hl
+      simp only [List.flatMap_append, List.flatMap_cons]
+      exact (List.sublist_append_left _ _).trans (List.sublist_append_right _ _)
+    exact h.nodup.sublist hsub
+  have hb : ∀ i ∈ ids l, i < s.nodes.length := by
+    intro i hi
+    obtain ⟨n, hn⟩ := Real.live (h.real l hl).2 i hi
+    exact hn.lt
+  have := nodup_bound _ _ hnd hb
+  omega
+
 end Mpt.Nodes
